@@ -86,7 +86,7 @@ type BehResult struct {
 	Hang     bool      `json:"hang,omitempty"`
 	Classes  []string  `json:"classes"` // real result class per step
 	WallMS   int64     `json:"wall_ms"`
-	Checks   int       `json:"checks"` // number of oracle comparisons performed
+	Checks   int       `json:"checks"`         // number of oracle comparisons performed
 	Dump     string    `json:"dump,omitempty"` // goroutine dump when something hung
 }
 
